@@ -145,7 +145,8 @@ def build(design, *, adder_process=False, counter_process=False, mux_process=Fal
             sub.d[ob["kind"]] += s.eq(s + e)
         o.obs.append(s)
     # the guide's two replaceable circuits
-    o.add_a, o.add_b, o.add_o = Signal(4, name="add_a"), Signal(4, name="add_b"), Signal(5, name="add_o")
+    # non-zero inputs at time 0: a replacing process has to run once at the very beginning (also after reset())
+    o.add_a, o.add_b, o.add_o = Signal(4, name="add_a", init=3), Signal(4, name="add_b", init=4), Signal(5, name="add_o")
     o.cnt_en, o.cnt = Signal(init=1, name="cnt_en"), Signal(4, name="cnt")
     if not adder_process:
         m2 = Module(); top.submodules.adder = m2
@@ -155,7 +156,7 @@ def build(design, *, adder_process=False, counter_process=False, mux_process=Fal
         with m3.If(o.cnt_en):
             m3.d.a += o.cnt.eq(o.cnt + 1)
     # a multiplexer written in default-then-override style
-    o.mux_sel, o.mux_a, o.mux_x, o.mux_y = Signal(name="mux_sel"), Signal(4, name="mux_a"), Signal(4, name="mux_x"), Signal(4, name="mux_y")
+    o.mux_sel, o.mux_a, o.mux_x, o.mux_y = Signal(name="mux_sel", init=1), Signal(4, name="mux_a", init=5), Signal(4, name="mux_x"), Signal(4, name="mux_y")
     if not mux_process:
         m4 = Module(); top.submodules.mux = m4
         m4.d.comb += o.mux_y.eq(0)
